@@ -477,7 +477,7 @@ func (hg *histGen) emitRegister() {
 	if obj >= 0 && g.Chance(0.8) {
 		hg.emitLint(obj, 0, false)
 	}
-	p.Ops = append(p.Ops, Op{K: "register", R: k, Name: d.Name})
+	p.Ops = append(p.Ops, Op{K: "register", R: k, Name: d.Name, Fresh: g.Chance(0.4)})
 	hg.meta.addLate(d)
 	hg.mregs[0].Sel[d.Name] = true
 	if obj >= 0 {
